@@ -2,6 +2,7 @@ package rules
 
 import (
 	"go/types"
+	"strings"
 
 	"golang.org/x/tools/go/ssa"
 
@@ -35,10 +36,14 @@ func (c *Ctx) fieldAccesses(fn *ssa.Function) []fieldRead {
 		switch x := i.(type) {
 		case *ssa.FieldAddr:
 			if o := c.ownerName(x.X.Type()); o != "" {
+				// (a field that was moved into a nested struct still belongs to its pinned-tree owner)
+				o = strings.SplitN(c.fieldName(x.X.Type(), x.Field), ".", 2)[0]
 				out = append(out, fieldRead{Fn: fn, Instr: x, Owner: o, Field: core.StructField(x.X.Type(), x.Field)})
 			}
 		case *ssa.Field:
 			if o := c.ownerName(x.X.Type()); o != "" {
+				// (a field that was moved into a nested struct still belongs to its pinned-tree owner)
+				o = strings.SplitN(c.fieldName(x.X.Type(), x.Field), ".", 2)[0]
 				out = append(out, fieldRead{Fn: fn, Instr: x, Owner: o, Field: core.StructField(x.X.Type(), x.Field)})
 			}
 		case *ssa.UnOp:
@@ -70,4 +75,13 @@ func isAddrOnlyWritten(fa *ssa.FieldAddr) bool {
 		}
 	}
 	return true
+}
+
+// fieldOwner: the canonical (pinned-tree) owner type of the field selected by fa; for a field that was
+// moved into a nested struct this is the struct it came from.
+func (c *Ctx) fieldOwner(fa *ssa.FieldAddr) string {
+	if c.ownerName(fa.X.Type()) == "" {
+		return ""
+	}
+	return strings.SplitN(c.fieldName(fa.X.Type(), fa.Field), ".", 2)[0]
 }
